@@ -48,7 +48,7 @@ REAL = ['asyncssh forward.py, listener.py, socks.py, connection/channel '
         'forwarding paths of both endpoints']
 STUB = ['event loop + clock', 'TCP/UNIX sockets and listeners', 'DNS',
         'executor', 'origin and destination applications']
-PROBES = ['dynamic_listen_ports', 'mode_remote_unix', 'mode_local', 'mode_socks', 'mode_remote', 'mode_local_unix',
+PROBES = ['duplicate_listen_request', 'dynamic_listen_ports', 'mode_remote_unix', 'mode_local', 'mode_socks', 'mode_remote', 'mode_local_unix',
           'early_data', 'half_close', 'origin_abort', 'dest_close_first',
           'slow_consumer', 'refused_by_policy', 'ssh_cut',
           'origin_gone_during_open', 'multi_conn', 'listen_refused']
@@ -121,6 +121,7 @@ def gen_plan(rng):
         'window': rng.choice([1000, 65536, 2097152]),
         'cut': cut,
         'dyn_ports': mode == 'remote' and rng.chance(40),
+        'dup_listen': mode == 'remote_unix' and rng.chance(40),
     }
 
 
@@ -500,6 +501,18 @@ def run_plan(plan, sched_seed=None, sched_replay=None):
                 for i in (0, 1):
                     listeners[i] = await conn.forward_remote_path(
                         '/rlisten%d.sock' % i, '/dest%d.sock' % i)
+
+                if plan.get('dup_listen'):
+                    # a second request for a path that is being listened
+                    # on already: refused, or at least not left behind
+                    sim.probes['duplicate_listen_request'] += 1
+
+                    try:
+                        res['dup'] = await conn.forward_remote_path(
+                            '/rlisten0.sock', '/dest0.sock')
+                    except (asyncssh.Error, asyncssh.ChannelListenError,
+                            OSError) as exc:
+                        res['dup_error'] = exc
             else:
                 for i in (0, 1):
                     # dyn_ports: the server picks the ports; both listeners
@@ -799,6 +812,8 @@ def run_plan(plan, sched_seed=None, sched_replay=None):
         own = {('127.0.0.1', 22), ('10.0.0.5', 80), ('10.0.0.6', 81),
                '/dest0.sock', '/dest1.sock'}
         left = [k for k in net.listeners if k not in own]
+        left += ['%s (re-bound, first listener)' % srv._keys[0]
+                 for srv in net.orphaned if srv.is_serving()]
 
         if left:
             world.violation('listener-residue', 'listeners still bound '
